@@ -110,7 +110,7 @@ UTCTime_encode_xer(const asn_TYPE_descriptor_t *td, const void *sptr,
 		ut = asn_time2UT(0, &tm, 1);
 		if(!ut) ASN__ENCODE_FAILED;
 
-		rv = OCTET_STRING_encode_xer_utf8(td, sptr, ilevel, flags,
+		rv = OCTET_STRING_encode_xer_utf8(td, ut, ilevel, flags,
 			cb, app_key);
 		OCTET_STRING_free(&asn_DEF_UTCTime, ut, 0);
 		return rv;
